@@ -1,1 +1,1372 @@
 // Included into /repo/src/parse/mod.rs as `mod verif` under cfg(json_syntax_verif).
+//
+// In-crate harnesses for the units the parser is built from. Being a child
+// module of `parse`, this code sees `Parser`'s private state (position,
+// pending look-ahead, code map) and the private fragment parsers.
+//
+// Each harness drives one REAL unit on a symbolic character array and compares
+// verdict, value, consumed length, look-ahead, code-map entry and error with a
+// flat reference automaton written from RFC 8259. Assertion labels carry the
+// property they belong to (C01 acceptance, C02 decoding, C05 code map, C07
+// error position, C12 options); ./check attributes failures by label.
+
+use super::{array, object, value::Fragment, Context, Error, Options, Parse, Parser};
+use crate::verif::util::{utf8_len, Sink};
+use crate::{NumberBuf, Value};
+use core::cell::Cell;
+use core::convert::Infallible;
+use decoded_char::DecodedChar;
+use locspan::Meta;
+
+// ---------------------------------------------------------------------------
+// driving the real parser on a character array
+
+pub struct Feed<'a> {
+	chars: &'a [char],
+	next: usize,
+	pulled: &'a Cell<usize>,
+}
+
+impl<'a> Iterator for Feed<'a> {
+	type Item = Result<DecodedChar, Infallible>;
+
+	fn next(&mut self) -> Option<Self::Item> {
+		if self.next < self.chars.len() {
+			let c = self.chars[self.next];
+			self.next += 1;
+			self.pulled.set(self.pulled.get() + 1);
+			Some(Ok(DecodedChar::from_utf8(c)))
+		} else {
+			None
+		}
+	}
+}
+
+pub type P<'a> = Parser<Feed<'a>, Infallible>;
+
+/// A parser that has already consumed `base` bytes and recorded `pre` code-map
+/// entries (any state a prefix of a document can leave behind).
+pub fn parser_at<'a>(chars: &'a [char], pulled: &'a Cell<usize>, base: usize, pre: usize, options: Options) -> P<'a> {
+	let mut p = Parser::new_with(
+		Feed {
+			chars,
+			next: 0,
+			pulled,
+		},
+		options,
+	);
+	p.position = base;
+	let mut i = 0;
+	while i < pre {
+		let e = p.code_map.reserve(0);
+		p.code_map.get_mut(e).unwrap().volume = 1;
+		i += 1;
+	}
+	p
+}
+
+/// Byte offset of character index `i` (reference UTF-8 lengths). Loop-free on
+/// purpose: Kani has a single unwind bound per harness, and a 24-iteration
+/// helper loop would force the parser's own loops to be unwound 24 times too.
+pub fn off(a: &[char], base: usize, i: usize) -> usize {
+	let mut o = base;
+	macro_rules! step {
+		($($j:expr),*) => { $( if $j < i && $j < a.len() { o += utf8_len(a[$j]); } )* };
+	}
+	step!(0, 1, 2, 3, 4, 5, 6, 7, 8, 9, 10, 11, 12, 13, 14, 15, 16, 17, 18, 19, 20, 21, 22, 23);
+	assert!(a.len() <= 24);
+	o
+}
+
+pub fn at(a: &[char], i: usize) -> Option<char> {
+	if i < a.len() {
+		Some(a[i])
+	} else {
+		None
+	}
+}
+
+pub fn is_unexpected(e: &Error<Infallible>, pos: usize, c: Option<char>) -> bool {
+	match e {
+		Error::Unexpected(p, x) => *p == pos && *x == c,
+		_ => false,
+	}
+}
+
+/// The entry `i` of the code map is closed with exactly this span and volume.
+pub fn entry_is(p: &P, i: usize, start: usize, end: usize, volume: usize) -> bool {
+	match p.code_map.as_slice().get(i) {
+		Some(e) => e.span.start() == start && e.span.end() == end && e.volume == volume,
+		None => false,
+	}
+}
+
+pub fn ws(c: char) -> bool {
+	c == ' ' || c == '\t' || c == '\n' || c == '\r'
+}
+
+/// RFC 8259 follow sets of a value, per context (reference).
+pub fn ref_follows(ctx: u8, c: char) -> bool {
+	ws(c)
+		|| match ctx {
+			0 => false,                // top level
+			1 => c == ',' || c == ']', // array item
+			2 => c == ':',             // object key
+			_ => c == ',' || c == '}', // object value
+		}
+}
+
+pub fn ctx_of(i: u8) -> Context {
+	match i {
+		0 => Context::None,
+		1 => Context::Array,
+		2 => Context::ObjectKey,
+		_ => Context::ObjectValue,
+	}
+}
+
+#[cfg(kani)]
+pub fn any_ctx() -> u8 {
+	let c: u8 = kani::any();
+	kani::assume(c < 4);
+	c
+}
+
+#[cfg(kani)]
+pub fn any_options() -> Options {
+	Options {
+		accept_truncated_surrogate_pair: kani::any(),
+		accept_invalid_codepoints: kani::any(),
+	}
+}
+
+#[cfg(kani)]
+pub fn any_base() -> usize {
+	let b: usize = kani::any();
+	kani::assume(b <= 1 << 20);
+	b
+}
+
+#[cfg(kani)]
+pub fn any_chars<const N: usize>() -> [char; N] {
+	core::array::from_fn(|_| kani::any())
+}
+
+/// Six symbolic characters without a generator loop (keeps the unwind bound
+/// of the harness equal to what the parser's own loop needs).
+#[cfg(kani)]
+pub fn any_chars10() -> [char; 10] {
+	[
+		kani::any(), kani::any(), kani::any(), kani::any(), kani::any(),
+		kani::any(), kani::any(), kani::any(), kani::any(), kani::any(),
+	]
+}
+
+#[cfg(kani)]
+pub fn any_chars6() -> [char; 6] {
+	[kani::any(), kani::any(), kani::any(), kani::any(), kani::any(), kani::any()]
+}
+
+// ---------------------------------------------------------------------------
+// L1: whitespace and follow sets
+
+#[cfg(kani)]
+#[kani::proof]
+fn l1_whitespace_and_follow_sets() {
+	let c: char = kani::any();
+	assert!(super::is_whitespace(c) == ws(c), "C01:whitespace-is-exactly-sp-ht-lf-cr");
+	let k = any_ctx();
+	assert!(ctx_of(k).follows(c) == ref_follows(k, c), "C01:follow-set-per-context");
+	kani::cover!(c == '\u{a0}');
+	kani::cover!(c == '\u{c}');
+	kani::cover!(k == 2 && c == ':');
+}
+
+// ---------------------------------------------------------------------------
+// L2: literals
+
+/// Index of the first character that deviates from `lit` (== lit.len() on a match).
+pub fn ref_literal_mismatch(a: &[char], lit: &[u8]) -> usize {
+	let mut i = 0;
+	while i < lit.len() {
+		if i >= a.len() || a[i] != lit[i] as char {
+			return i;
+		}
+		i += 1;
+	}
+	lit.len()
+}
+
+macro_rules! l2_bool {
+	($name:ident, $n:expr) => {
+		#[cfg(kani)]
+		#[kani::proof]
+		#[kani::unwind(7)]
+		fn $name() {
+			const N: usize = $n;
+			let backing: [char; 10] = any_chars10();
+			let a = &backing[..N];
+			let pulled = Cell::new(0);
+			let base = any_base();
+			let opts = any_options();
+			let ctx = any_ctx();
+			let mut p = parser_at(a, &pulled, base, 1, opts);
+			let r = bool::parse_in(&mut p, ctx_of(ctx));
+			let lit: &[u8] = if at(a, 0) == Some('f') { b"false" } else { b"true" };
+			let m = ref_literal_mismatch(a, lit);
+			match r {
+				Ok(Meta(v, i)) => {
+					assert!(m == lit.len(), "C01:literal-accepted-only-if-spelled-exactly");
+					assert!(v == (lit.len() == 4), "C02:literal-value");
+					assert!(i == 1 && p.code_map.len() == 2, "C05:scalar-one-entry");
+					assert!(entry_is(&p, 1, base, base + lit.len(), 1), "C05:scalar-span-and-volume");
+					assert!(p.position == base + lit.len() && p.pending.is_none(), "C01:literal-consumes-exactly-its-characters");
+					assert!(pulled.get() == lit.len(), "C01:single-pass");
+				}
+				Err(e) => {
+					assert!(m < lit.len(), "C01:literal-accepted-when-spelled-exactly");
+					assert!(is_unexpected(&e, off(a, base, m), at(a, m)), "C07:literal-error-at-first-deviation");
+					assert!(pulled.get() <= m + 1, "C01:single-pass");
+					core::mem::forget(e);
+				}
+			}
+			kani::cover!(N < 4 || m == lit.len());
+			kani::cover!(N < 2 || (m < lit.len() && m > 0));
+			kani::cover!(N > 5 || m == N);
+			core::mem::forget(p);
+		}
+	};
+}
+
+l2_bool!(l2_bool_n0, 0);
+l2_bool!(l2_bool_n3, 3);
+l2_bool!(l2_bool_n4, 4);
+l2_bool!(l2_bool_n5, 5);
+l2_bool!(l2_bool_n6, 6);
+
+macro_rules! l2_null {
+	($name:ident, $n:expr) => {
+		#[cfg(kani)]
+		#[kani::proof]
+		#[kani::unwind(7)]
+		fn $name() {
+			const N: usize = $n;
+			let backing: [char; 10] = any_chars10();
+			let a = &backing[..N];
+			let pulled = Cell::new(0);
+			let base = any_base();
+			let opts = any_options();
+			let ctx = any_ctx();
+			let mut p = parser_at(a, &pulled, base, 1, opts);
+			let r = <()>::parse_in(&mut p, ctx_of(ctx));
+			let m = ref_literal_mismatch(a, b"null");
+			match r {
+				Ok(Meta((), i)) => {
+					assert!(m == 4, "C01:literal-accepted-only-if-spelled-exactly");
+					assert!(i == 1 && p.code_map.len() == 2, "C05:scalar-one-entry");
+					assert!(entry_is(&p, 1, base, base + 4, 1), "C05:scalar-span-and-volume");
+					assert!(p.position == base + 4 && p.pending.is_none(), "C01:literal-consumes-exactly-its-characters");
+					assert!(pulled.get() == 4, "C01:single-pass");
+				}
+				Err(e) => {
+					assert!(m < 4, "C01:literal-accepted-when-spelled-exactly");
+					assert!(is_unexpected(&e, off(a, base, m), at(a, m)), "C07:literal-error-at-first-deviation");
+					assert!(pulled.get() <= m + 1, "C01:single-pass");
+					core::mem::forget(e);
+				}
+			}
+			kani::cover!(N < 4 || m == 4);
+			kani::cover!(N < 2 || (m < 4 && m > 0));
+			kani::cover!(N > 4 || m == N);
+			core::mem::forget(p);
+		}
+	};
+}
+
+l2_null!(l2_null_n0, 0);
+l2_null!(l2_null_n3, 3);
+l2_null!(l2_null_n4, 4);
+l2_null!(l2_null_n5, 5);
+
+// ---------------------------------------------------------------------------
+// L3: numbers. Reference: table-driven DFA written from the RFC 8259 ABNF
+//   number = [ minus ] int [ frac ] [ exp ]
+// classes: 0 '-'  1 '0'  2 '1'-'9'  3 '.'  4 'e'/'E'  5 '+'  6 anything else
+
+pub fn num_class(c: char) -> usize {
+	match c {
+		'-' => 0,
+		'0' => 1,
+		'1'..='9' => 2,
+		'.' => 3,
+		'e' | 'E' => 4,
+		'+' => 5,
+		_ => 6,
+	}
+}
+
+const X: u8 = 255;
+/// states: 0 start, 1 after '-', 2 "0", 3 int digits, 4 after '.', 5 frac
+/// digits, 6 after e, 7 after exponent sign, 8 exponent digits
+pub const NUM_DFA: [[u8; 7]; 9] = [
+	// -  0  1-9  .  e  +  other
+	[1, 2, 3, X, X, X, X],
+	[X, 2, 3, X, X, X, X],
+	[X, X, X, 4, 6, X, X],
+	[X, 3, 3, 4, 6, X, X],
+	[X, 5, 5, X, X, X, X],
+	[X, 5, 5, X, 6, X, X],
+	[7, 8, 8, X, X, 7, X],
+	[X, 8, 8, X, X, X, X],
+	[X, 8, 8, X, X, X, X],
+];
+pub const NUM_ACCEPTING: [bool; 9] = [false, false, true, true, false, true, false, false, true];
+
+/// Ok(len): a maximal number lexeme of `len` characters followed by end of
+/// input or a character of the context's follow set. Err(i): the input cannot
+/// be extended to a valid text beyond character index `i`.
+pub fn ref_number(a: &[char], ctx: u8) -> Result<usize, usize> {
+	let mut state = 0usize;
+	let mut i = 0;
+	while i < a.len() {
+		let t = NUM_DFA[state][num_class(a[i])];
+		if t == X {
+			return if NUM_ACCEPTING[state] && ref_follows(ctx, a[i]) {
+				Ok(i)
+			} else {
+				Err(i)
+			};
+		}
+		state = t as usize;
+		i += 1;
+	}
+	if NUM_ACCEPTING[state] {
+		Ok(a.len())
+	} else {
+		Err(a.len())
+	}
+}
+
+macro_rules! l3_number {
+	($name:ident, $n:expr, $unwind:expr) => {
+		#[cfg(kani)]
+		#[kani::proof]
+		#[kani::unwind($unwind)]
+		#[kani::stub(smallvec::SmallVec::try_grow, crate::verif::util::no_grow)]
+		fn $name() {
+			const N: usize = $n;
+			let backing: [char; 10] = any_chars10();
+			let a = &backing[..N];
+			let pulled = Cell::new(0);
+			let base = any_base();
+			let opts = any_options();
+			let ctx = any_ctx();
+			let mut p = parser_at(a, &pulled, base, 1, opts);
+			let r = NumberBuf::parse_in(&mut p, ctx_of(ctx));
+			let want = ref_number(a, ctx);
+			match r {
+				Ok(Meta(v, i)) => {
+					assert!(want.is_ok(), "C01:number-accepted-only-if-rfc8259-lexeme-plus-follow");
+					let len = match want {
+						Ok(l) => l,
+						Err(_) => 0,
+					};
+					let b = v.as_bytes();
+					assert!(b.len() == len, "C02:number-spelling-verbatim");
+					let mut j = 0;
+					while j < N {
+						if j < len && j < b.len() {
+							assert!(b[j] as char == a[j], "C02:number-spelling-verbatim");
+						}
+						j += 1;
+					}
+					assert!(i == 1 && p.code_map.len() == 2, "C05:scalar-one-entry");
+					assert!(entry_is(&p, 1, base, base + len, 1), "C05:scalar-span-and-volume");
+					assert!(p.position == base + len, "C01:number-consumes-exactly-its-lexeme");
+					if len < N {
+						// the look-ahead character is left pending, not consumed
+						assert!(p.pending.map(|c| c.chr()) == Some(a[len]), "C01:number-lookahead-left-pending");
+					} else {
+						assert!(p.pending.is_none(), "C01:number-lookahead-left-pending");
+					}
+					assert!(pulled.get() <= len + 1, "C01:single-pass");
+					core::mem::forget(v);
+				}
+				Err(e) => {
+					assert!(want.is_err(), "C01:number-accepted-when-rfc8259-lexeme-plus-follow");
+					let m = match want {
+						Err(m) => m,
+						Ok(_) => 0,
+					};
+					// everything before the error is ASCII: byte offset == char index
+					assert!(is_unexpected(&e, base + m, at(a, m)), "C07:number-error-at-first-non-viable-character");
+					assert!(pulled.get() <= m + 1, "C01:single-pass");
+					core::mem::forget(e);
+				}
+			}
+			kani::cover!(N < 1 || want.is_ok());
+			kani::cover!(want == Err(N));
+			kani::cover!(N < 2 || matches!(want, Ok(l) if l < N));
+			kani::cover!(N < 1 || matches!(want, Err(m) if m < N));
+			core::mem::forget(p);
+		}
+	};
+}
+
+l3_number!(l3_number_n0, 0, 2);
+l3_number!(l3_number_n1, 1, 3);
+l3_number!(l3_number_n2, 2, 4);
+l3_number!(l3_number_n3, 3, 5);
+l3_number!(l3_number_n4, 4, 6);
+l3_number!(l3_number_n5, 5, 7);
+l3_number!(l3_number_n6, 6, 8);
+l3_number!(l3_number_n7, 7, 9);
+l3_number!(l3_number_n8, 8, 10);
+
+// ---------------------------------------------------------------------------
+// L4 / D1 / C12: strings. Reference decoder written from RFC 8259 §7.
+
+pub fn hexval(c: char) -> Option<u32> {
+	match c {
+		'0'..='9' => Some(c as u32 - '0' as u32),
+		'a'..='f' => Some(c as u32 - 'a' as u32 + 10),
+		'A'..='F' => Some(c as u32 - 'A' as u32 + 10),
+		_ => None,
+	}
+}
+
+#[derive(Clone, Copy, PartialEq, Eq)]
+pub enum RefErr {
+	None,
+	/// unexpected character (or end of input) at this character index
+	Unexpected(usize),
+	/// high surrogate `hi` (escape starting at char index `from`) not followed
+	/// by a low surrogate; the problem is known at char index `to` (exclusive)
+	MissingLow { hi: u32, from: usize, to: usize },
+	/// high surrogate followed by the `\u` escape of the non-low code unit `cu`
+	InvalidLow { hi: u32, cu: u32, from: usize, to: usize },
+	/// a code unit that is not a scalar value on its own (lone low surrogate)
+	InvalidCp { cp: u32, from: usize, to: usize },
+}
+
+pub struct RefStr {
+	pub ok: bool,
+	/// expected decoded content, UTF-8
+	pub out: Sink<4>,
+	/// characters consumed, both quotes included (when ok)
+	pub consumed: usize,
+	pub err: RefErr,
+	/// an unpaired high surrogate escape was directly followed by another
+	/// high surrogate escape while the truncated-pair option was on
+	pub high_after_high: bool,
+}
+
+enum El {
+	Scalar(char),
+	Unit(u32),
+}
+
+pub fn ref_string(a: &[char], trunc: bool, invalid: bool) -> RefStr {
+	let mut r = RefStr {
+		ok: false,
+		out: Sink::new(),
+		consumed: 0,
+		err: RefErr::None,
+		high_after_high: false,
+	};
+	let n = a.len();
+	if n == 0 || a[0] != '"' {
+		r.err = RefErr::Unexpected(0);
+		return r;
+	}
+	let mut pending: Option<(u32, usize)> = None; // (high surrogate, index of its backslash)
+	let mut i = 1;
+	let mut steps = 0;
+	while steps <= n {
+		steps += 1;
+		if i >= n {
+			r.err = RefErr::Unexpected(n);
+			return r;
+		}
+		let c = a[i];
+		let start = i;
+		let el;
+		let next;
+		if c == '"' {
+			if let Some((hi, from)) = pending {
+				if trunc {
+					r.out.push_char('\u{fffd}');
+				} else {
+					r.err = RefErr::MissingLow { hi, from, to: i };
+					return r;
+				}
+			}
+			r.ok = true;
+			r.consumed = i + 1;
+			return r;
+		} else if c == '\\' {
+			if i + 1 >= n {
+				r.err = RefErr::Unexpected(n);
+				return r;
+			}
+			match a[i + 1] {
+				'"' => el = El::Scalar('"'),
+				'\\' => el = El::Scalar('\\'),
+				'/' => el = El::Scalar('/'),
+				'b' => el = El::Scalar('\u{8}'),
+				'f' => el = El::Scalar('\u{c}'),
+				'n' => el = El::Scalar('\n'),
+				'r' => el = El::Scalar('\r'),
+				't' => el = El::Scalar('\t'),
+				'u' => {
+					// four hex digits, unrolled (no loop: keeps the harness unwind bound small)
+					let mut cu = 0u32;
+					macro_rules! digit {
+						($k:expr) => {
+							let j = i + 2 + $k;
+							if j >= n {
+								r.err = RefErr::Unexpected(n);
+								return r;
+							}
+							match hexval(a[j]) {
+								Some(h) => cu = cu * 16 + h,
+								None => {
+									r.err = RefErr::Unexpected(j);
+									return r;
+								}
+							}
+						};
+					}
+					digit!(0);
+					digit!(1);
+					digit!(2);
+					digit!(3);
+					el = El::Unit(cu);
+				}
+				_ => {
+					r.err = RefErr::Unexpected(i + 1);
+					return r;
+				}
+			}
+			next = match el {
+				El::Unit(_) => i + 6,
+				El::Scalar(_) => i + 2,
+			};
+		} else if (c as u32) < 0x20 {
+			r.err = RefErr::Unexpected(i);
+			return r;
+		} else {
+			el = El::Scalar(c);
+			next = i + 1;
+		}
+		// surrogate pairing
+		let mut unit = match el {
+			El::Unit(cu) => Some(cu),
+			El::Scalar(_) => None,
+		};
+		if let Some((hi, from)) = pending {
+			pending = None;
+			match unit {
+				Some(cu) if (0xDC00..=0xDFFF).contains(&cu) => {
+					let cp = 0x10000 + ((hi - 0xD800) << 10) + (cu - 0xDC00);
+					r.out.push_char(char::from_u32(cp).unwrap());
+					unit = None;
+					i = next;
+					continue;
+				}
+				Some(cu) => {
+					if trunc {
+						r.out.push_char('\u{fffd}');
+						if (0xD800..=0xDBFF).contains(&cu) {
+							r.high_after_high = true;
+						}
+					} else {
+						r.err = RefErr::InvalidLow { hi, cu, from, to: next };
+						return r;
+					}
+				}
+				None => {
+					if trunc {
+						r.out.push_char('\u{fffd}');
+					} else {
+						r.err = RefErr::MissingLow { hi, from, to: next };
+						return r;
+					}
+				}
+			}
+		}
+		match (el, unit) {
+			(El::Scalar(c), _) => r.out.push_char(c),
+			(El::Unit(_), Some(cu)) => {
+				if (0xD800..=0xDBFF).contains(&cu) {
+					pending = Some((cu, start));
+				} else if (0xDC00..=0xDFFF).contains(&cu) {
+					if invalid {
+						r.out.push_char('\u{fffd}');
+					} else {
+						r.err = RefErr::InvalidCp { cp: cu, from: start, to: next };
+						return r;
+					}
+				} else {
+					r.out.push_char(char::from_u32(cu).unwrap());
+				}
+			}
+			(El::Unit(_), None) => (),
+		}
+		i = next;
+	}
+	r
+}
+
+/// Compares the implementation's result on `a` with the reference `want`.
+/// `pulled` = characters pulled from the input, `pre` = code-map entries
+/// before the unit started.
+pub fn check_string<'a>(
+	a: &[char],
+	base: usize,
+	opts: Options,
+	p: &P<'a>,
+	r: Result<Meta<crate::String, usize>, Error<Infallible>>,
+	want: &RefStr,
+	pulled: usize,
+) {
+	let strict = !opts.accept_truncated_surrogate_pair && !opts.accept_invalid_codepoints;
+	match r {
+		Ok(Meta(s, i)) => {
+			if want.high_after_high {
+				assert!(want.ok, "C12:unpaired-high-followed-by-high-escape");
+			} else if strict {
+				assert!(want.ok, "C01:string-accepted-only-if-rfc8259-string");
+			} else {
+				assert!(want.ok, "C12:lenient-accepts-only-the-documented-relaxations");
+			}
+			let b = s.as_bytes();
+			let mut same = b.len() == want.out.len && !want.out.overflow;
+			macro_rules! byte {
+				($($j:expr),*) => { $( if $j < b.len() && $j < want.out.len && b[$j] != want.out.byte($j) { same = false; } )* };
+			}
+			byte!(0, 1, 2, 3, 4, 5, 6, 7, 8, 9, 10, 11, 12, 13, 14, 15);
+			if want.high_after_high {
+				assert!(same, "C12:unpaired-high-followed-by-high-escape");
+			} else if strict {
+				assert!(same, "C02:string-decoded-per-rfc8259-section-7");
+			} else {
+				assert!(same, "C12:lenient-decoding-one-replacement-per-unpaired-surrogate");
+			}
+			let end = off(a, base, want.consumed);
+			assert!(i == 1 && p.code_map.len() == 2, "C05:scalar-one-entry");
+			assert!(entry_is(p, 1, base, end, 1), "C05:scalar-span-and-volume");
+			assert!(p.position == end && p.pending.is_none(), "C01:string-consumes-exactly-its-characters");
+			assert!(pulled == want.consumed, "C01:single-pass");
+			core::mem::forget(s);
+		}
+		Err(e) => {
+			if want.high_after_high {
+				assert!(!want.ok, "C12:unpaired-high-followed-by-high-escape");
+				core::mem::forget(e);
+				return;
+			} else if strict {
+				assert!(!want.ok, "C01:string-accepted-when-rfc8259-string");
+			} else {
+				assert!(!want.ok, "C12:lenient-accepts-every-documented-relaxation");
+			}
+			match (want.err, &e) {
+				(RefErr::Unexpected(m), _) => {
+					assert!(is_unexpected(&e, off(a, base, m), at(a, m)), "C07:string-error-at-first-non-viable-character");
+					assert!(pulled <= m + 1, "C01:single-pass");
+				}
+				(RefErr::MissingLow { hi, from, to }, Error::MissingLowSurrogate(span, h)) => {
+					assert!(*h as u32 == hi, "C07:surrogate-error-carries-the-code-units");
+					assert!(
+						span.start() >= off(a, base, from)
+							&& span.start() < off(a, base, from + 6)
+							&& span.end() >= span.start()
+							&& span.end() <= off(a, base, to),
+						"C07:surrogate-error-span-inside-the-offending-escapes"
+					);
+				}
+				(RefErr::InvalidLow { hi, cu, from, to }, Error::InvalidLowSurrogate(span, h, c)) => {
+					assert!(*h as u32 == hi && *c == cu, "C07:surrogate-error-carries-the-code-units");
+					assert!(
+						span.start() >= off(a, base, from) && span.end() >= span.start() && span.end() <= off(a, base, to),
+						"C07:surrogate-error-span-inside-the-offending-escapes"
+					);
+				}
+				(RefErr::InvalidCp { cp, from, to }, Error::InvalidUnicodeCodePoint(span, c)) => {
+					assert!(*c == cp, "C07:surrogate-error-carries-the-code-units");
+					assert!(
+						span.start() >= off(a, base, from) && span.end() >= span.start() && span.end() <= off(a, base, to),
+						"C07:surrogate-error-span-inside-the-offending-escapes"
+					);
+				}
+				_ => panic!("C07:error-variant-matches-the-cause"),
+			}
+			core::mem::forget(e);
+		}
+	}
+}
+
+macro_rules! l4_string {
+	($name:ident, $n:expr, $unwind:expr) => {
+		#[cfg(kani)]
+		#[kani::proof]
+		#[kani::unwind($unwind)]
+		#[kani::stub(smallvec::SmallVec::try_grow, crate::verif::util::no_grow)]
+		fn $name() {
+			const N: usize = $n;
+			let backing: [char; 6] = any_chars6();
+			let a = &backing[..N];
+			let pulled = Cell::new(0);
+			let base = any_base();
+			let opts = any_options();
+			let ctx = any_ctx();
+			let mut p = parser_at(a, &pulled, base, 1, opts);
+			let r = crate::String::parse_in(&mut p, ctx_of(ctx));
+			let want = ref_string(a, opts.accept_truncated_surrogate_pair, opts.accept_invalid_codepoints);
+			kani::cover!(N < 2 || want.ok);
+			kani::cover!(N < 3 || (want.ok && want.out.len > 1));
+			kani::cover!(want.err == RefErr::Unexpected(N));
+			kani::cover!(N < 2 || matches!(want.err, RefErr::Unexpected(m) if m + 1 == N));
+			check_string(a, base, opts, &p, r, &want, pulled.get());
+			core::mem::forget(p);
+		}
+	};
+}
+
+l4_string!(l4_string_n0, 0, 3);
+l4_string!(l4_string_n1, 1, 3);
+l4_string!(l4_string_n2, 2, 3);
+l4_string!(l4_string_n3, 3, 4);
+l4_string!(l4_string_n4, 4, 5);
+l4_string!(l4_string_n5, 5, 6);
+
+/// Twelve characters chosen to reach every arm of the scanner.
+#[cfg(kani)]
+pub fn alpha12() -> char {
+	let i: u8 = kani::any();
+	match i {
+		0 => '"',
+		1 => '\\',
+		2 => 'u',
+		3 => 'n',
+		4 => '/',
+		5 => 'a',
+		6 => '0',
+		7 => 'd',
+		8 => '8',
+		9 => 'c',
+		10 => '\u{1f}',
+		_ => '\u{e9}',
+	}
+}
+
+macro_rules! l4_alpha {
+	($name:ident, $n:expr, $unwind:expr) => {
+		#[cfg(kani)]
+		#[kani::proof]
+		#[kani::unwind($unwind)]
+		#[kani::stub(smallvec::SmallVec::try_grow, crate::verif::util::no_grow)]
+		fn $name() {
+			const N: usize = $n;
+			let backing: [char; 10] = [
+				'"', alpha12(), alpha12(), alpha12(), alpha12(), alpha12(), alpha12(), alpha12(), alpha12(), alpha12(),
+			];
+			let a = &backing[..N];
+			let pulled = Cell::new(0);
+			let base = any_base();
+			let opts = any_options();
+			let mut p = parser_at(a, &pulled, base, 1, opts);
+			let r = crate::String::parse_in(&mut p, Context::None);
+			let want = ref_string(a, opts.accept_truncated_surrogate_pair, opts.accept_invalid_codepoints);
+			kani::cover!(want.ok && want.out.len >= 3);
+			kani::cover!(matches!(want.err, RefErr::Unexpected(m) if m + 1 == N));
+			kani::cover!(matches!(want.err, RefErr::Unexpected(m) if m == N));
+			check_string(a, base, opts, &p, r, &want, pulled.get());
+			core::mem::forget(p);
+		}
+	};
+}
+
+l4_alpha!(l4_alpha_n6, 6, 7);
+l4_alpha!(l4_alpha_n7, 7, 8);
+l4_alpha!(l4_alpha_n8, 8, 9);
+
+// --- shaped strings: elements with symbolic hex digit VALUES and case bits
+
+#[cfg(kani)]
+pub fn hex_char(v: u32) -> char {
+	let upper: bool = kani::any();
+	if v < 10 {
+		(b'0' + v as u8) as char
+	} else if upper {
+		(b'A' + (v as u8 - 10)) as char
+	} else {
+		(b'a' + (v as u8 - 10)) as char
+	}
+}
+
+/// kind 0: any `\uXXXX` (all 65,536 code units); 1: high surrogate escape;
+/// 2: low surrogate escape; 3: non-surrogate `\uXXXX`; 4: raw character;
+/// 5: two-character escape
+#[cfg(kani)]
+pub fn push_element(kind: u8, buf: &mut [char; 24], len: &mut usize) {
+	match kind {
+		0 | 1 | 2 | 3 => {
+			let cu: u16 = kani::any();
+			let cu = cu as u32;
+			match kind {
+				1 => kani::assume((0xD800..=0xDBFF).contains(&cu)),
+				2 => kani::assume((0xDC00..=0xDFFF).contains(&cu)),
+				3 => kani::assume(!(0xD800..=0xDFFF).contains(&cu)),
+				_ => (),
+			}
+			buf[*len] = '\\';
+			buf[*len + 1] = 'u';
+			buf[*len + 2] = hex_char(cu >> 12);
+			buf[*len + 3] = hex_char((cu >> 8) & 15);
+			buf[*len + 4] = hex_char((cu >> 4) & 15);
+			buf[*len + 5] = hex_char(cu & 15);
+			*len += 6;
+		}
+		4 => {
+			let c: char = kani::any();
+			kani::assume(c as u32 >= 0x20 && c != '"' && c != '\\');
+			buf[*len] = c;
+			*len += 1;
+		}
+		_ => {
+			let c: char = kani::any();
+			kani::assume(matches!(c, '"' | '\\' | '/' | 'b' | 'f' | 'n' | 'r' | 't'));
+			buf[*len] = '\\';
+			buf[*len + 1] = c;
+			*len += 2;
+		}
+	}
+}
+
+macro_rules! shaped {
+	($name:ident, [$($kind:expr),*], $closed:expr) => {
+		shaped!($name, [$($kind),*], $closed, 5);
+	};
+	($name:ident, [$($kind:expr),*], $closed:expr, $unwind:expr) => {
+		#[cfg(kani)]
+		#[kani::proof]
+		#[kani::unwind($unwind)]
+		#[kani::stub(smallvec::SmallVec::try_grow, crate::verif::util::no_grow)]
+		fn $name() {
+			let mut buf: [char; 24] = ['"'; 24];
+			let mut len = 1;
+			$( push_element($kind, &mut buf, &mut len); )*
+			if $closed {
+				buf[len] = '"';
+				len += 1;
+			}
+			let a = &buf[..len];
+			let pulled = Cell::new(0);
+			let base = any_base();
+			let opts = any_options();
+			let mut p = parser_at(a, &pulled, base, 1, opts);
+			let r = crate::String::parse_in(&mut p, Context::ObjectKey);
+			let want = ref_string(a, opts.accept_truncated_surrogate_pair, opts.accept_invalid_codepoints);
+			kani::cover!(!$closed || want.ok);
+			check_string(a, base, opts, &p, r, &want, pulled.get());
+			core::mem::forget(p);
+		}
+	};
+}
+
+// D1: every \uXXXX, every pair of \uXXXX\uYYYY (all 2^32 digit combinations)
+shaped!(d1_escape_any, [0], true, 3);
+shaped!(d1_escape_any_any, [0, 0], true, 4);
+// C12: every sequence of <= 2 elements over {high, low, ordinary escape, raw}
+shaped!(c12_h, [1], true, 3);
+shaped!(c12_l, [2], true, 3);
+shaped!(c12_o, [3], true, 3);
+shaped!(c12_r, [4], true, 3);
+shaped!(c12_e, [5], true, 3);
+shaped!(c12_hh, [1, 1], true, 4);
+shaped!(c12_hl, [1, 2], true, 4);
+shaped!(c12_ho, [1, 3], true, 4);
+shaped!(c12_hr, [1, 4], true, 4);
+shaped!(c12_he, [1, 5], true, 4);
+shaped!(c12_lh, [2, 1], true, 4);
+shaped!(c12_ll, [2, 2], true, 4);
+shaped!(c12_lo, [2, 3], true, 4);
+shaped!(c12_lr, [2, 4], true, 4);
+shaped!(c12_oh, [3, 1], true, 4);
+shaped!(c12_ol, [3, 2], true, 4);
+shaped!(c12_oo, [3, 3], true, 4);
+shaped!(c12_or, [3, 4], true, 4);
+shaped!(c12_rh, [4, 1], true, 4);
+shaped!(c12_rl, [4, 2], true, 4);
+shaped!(c12_ro, [4, 3], true, 4);
+shaped!(c12_rr, [4, 4], true, 4);
+// three elements (thorough): the combinations in which pairing state matters
+shaped!(c12_hhl, [1, 1, 2], true, 5);
+shaped!(c12_hlh, [1, 2, 1], true, 5);
+shaped!(c12_hll, [1, 2, 2], true, 5);
+shaped!(c12_lhl, [2, 1, 2], true, 5);
+shaped!(c12_hrl, [1, 4, 2], true, 5);
+shaped!(c12_hel, [1, 5, 2], true, 5);
+shaped!(c12_rhl, [4, 1, 2], true, 5);
+shaped!(c12_hlr, [1, 2, 4], true, 5);
+shaped!(c12_ohl, [3, 1, 2], true, 5);
+shaped!(c12_hol, [1, 3, 2], true, 5);
+shaped!(c12_lll, [2, 2, 2], true, 5);
+shaped!(c12_hhh, [1, 1, 1], true, 5);
+// unterminated after an escape (end of input while a high surrogate is pending)
+shaped!(c12_h_open, [1], false, 3);
+shaped!(c12_hl_open, [1, 2], false, 4);
+
+// ---------------------------------------------------------------------------
+// S1: fragment parsers (the pieces the driver loop of Value::parse_in composes)
+
+/// Index of the first non-whitespace character at or after `from`.
+pub fn skip_ws(a: &[char], from: usize) -> usize {
+	let mut j = from;
+	let mut k = 0;
+	while k < a.len() {
+		if j == k && ws(a[k]) {
+			j += 1;
+		}
+		k += 1;
+	}
+	j
+}
+
+/// An open (reserved, not yet closed) code-map entry.
+pub fn entry_open(p: &P, i: usize, start: usize) -> bool {
+	entry_is(p, i, start, start, 0)
+}
+
+macro_rules! s1_array_start {
+	($name:ident, $n:expr, $unwind:expr) => {
+		#[cfg(kani)]
+		#[kani::proof]
+		#[kani::unwind($unwind)]
+		fn $name() {
+			const N: usize = $n;
+			let backing: [char; 6] = any_chars6();
+			let a = &backing[..N];
+			let pulled = Cell::new(0);
+			let base = any_base();
+			let mut p = parser_at(a, &pulled, base, 1, any_options());
+			let r = array::StartFragment::parse_in(&mut p, ctx_of(any_ctx()));
+			if at(a, 0) != Some('[') {
+				match &r {
+					Err(e) => {
+						assert!(is_unexpected(e, base, at(a, 0)), "C07:array-start-error-position");
+					}
+					Ok(_) => panic!("C01:array-starts-with-bracket"),
+				}
+			} else {
+				let j = skip_ws(a, 1);
+				match &r {
+					Ok(Meta(array::StartFragment::Empty, i)) => {
+						assert!(at(a, j) == Some(']'), "C01:empty-array-is-bracket-ws-bracket");
+						assert!(*i == 1 && p.code_map.len() == 2, "C05:array-one-entry-reserved");
+						assert!(entry_is(&p, 1, base, off(a, base, j + 1), 1), "C05:empty-array-entry-closed-with-span-and-volume-1");
+						assert!(p.position == off(a, base, j + 1) && p.pending.is_none(), "C01:empty-array-consumes-through-bracket");
+						assert!(pulled.get() == j + 1, "C01:single-pass");
+					}
+					Ok(Meta(array::StartFragment::NonEmpty, i)) => {
+						assert!(at(a, j) != Some(']'), "C01:empty-array-is-bracket-ws-bracket");
+						assert!(*i == 1 && p.code_map.len() == 2, "C05:array-one-entry-reserved");
+						assert!(entry_open(&p, 1, base), "C05:array-entry-stays-open-until-closing-bracket");
+						assert!(p.position == off(a, base, j), "C01:array-start-consumes-bracket-and-whitespace-only");
+						assert!(p.pending.map(|c| c.chr()) == at(a, j), "C01:first-item-character-left-pending");
+						assert!(pulled.get() <= j + 1, "C01:single-pass");
+					}
+					Err(_) => panic!("C01:array-start-never-fails-after-bracket"),
+				}
+			}
+			kani::cover!(N < 2 || matches!(r, Ok(Meta(array::StartFragment::Empty, _))));
+			kani::cover!(N < 1 || matches!(r, Ok(Meta(array::StartFragment::NonEmpty, _))));
+			kani::cover!(r.is_err());
+			core::mem::forget(r);
+			core::mem::forget(p);
+		}
+	};
+}
+
+s1_array_start!(s1_array_start_n0, 0, 5);
+s1_array_start!(s1_array_start_n1, 1, 5);
+s1_array_start!(s1_array_start_n2, 2, 5);
+s1_array_start!(s1_array_start_n3, 3, 5);
+s1_array_start!(s1_array_start_n4, 4, 6);
+
+macro_rules! s1_array_continue {
+	($name:ident, $n:expr, $unwind:expr) => {
+		#[cfg(kani)]
+		#[kani::proof]
+		#[kani::unwind($unwind)]
+		fn $name() {
+			const N: usize = $n;
+			let backing: [char; 6] = any_chars6();
+			let a = &backing[..N];
+			let pulled = Cell::new(0);
+			let base = any_base();
+			// code map: 3 entries; the array being continued is entry `arr`, still open
+			let mut p = parser_at(a, &pulled, base, 3, any_options());
+			let arr: usize = kani::any();
+			kani::assume(arr < 3);
+			let start: usize = kani::any();
+			kani::assume(start <= base);
+			{
+				let e = p.code_map.get_mut(arr).unwrap();
+				e.span = locspan::Span::new(start, start);
+				e.volume = 0;
+			}
+			let r = array::ContinueFragment::parse_in(&mut p, arr);
+			let j = skip_ws(a, 0);
+			match (at(a, j), r) {
+				(Some(','), Ok(array::ContinueFragment::Item)) => {
+					assert!(p.position == off(a, base, j + 1) && p.pending.is_none(), "C01:comma-consumed");
+					assert!(entry_open(&p, arr, start), "C05:array-entry-stays-open-until-closing-bracket");
+					assert!(p.code_map.len() == 3, "C05:no-entry-for-punctuation");
+				}
+				(Some(']'), Ok(array::ContinueFragment::End)) => {
+					assert!(p.position == off(a, base, j + 1) && p.pending.is_none(), "C01:closing-bracket-consumed");
+					assert!(
+						entry_is(&p, arr, start, off(a, base, j + 1), 3 - arr),
+						"C05:array-entry-closed-at-bracket-with-volume-of-subtree"
+					);
+					assert!(p.code_map.len() == 3, "C05:no-entry-for-punctuation");
+				}
+				(c, Err(e)) => {
+					assert!(c != Some(',') && c != Some(']'), "C01:array-continues-with-comma-or-bracket");
+					assert!(is_unexpected(&e, off(a, base, j), c), "C07:array-continue-error-position");
+					core::mem::forget(e);
+				}
+				_ => panic!("C01:array-continues-with-comma-or-bracket"),
+			}
+			assert!(pulled.get() <= j + 1, "C01:single-pass");
+			kani::cover!(N < 1 || at(a, j) == Some(','));
+			kani::cover!(N < 2 || (at(a, j) == Some(']') && j > 0));
+			kani::cover!(j == N);
+			core::mem::forget(p);
+		}
+	};
+}
+
+s1_array_continue!(s1_array_continue_n0, 0, 5);
+s1_array_continue!(s1_array_continue_n1, 1, 5);
+s1_array_continue!(s1_array_continue_n2, 2, 5);
+s1_array_continue!(s1_array_continue_n3, 3, 5);
+
+/// `{ ws* }` and error paths, fully symbolic characters.
+macro_rules! s1_object_start {
+	($name:ident, $n:expr, $unwind:expr) => {
+		#[cfg(kani)]
+		#[kani::proof]
+		#[kani::unwind($unwind)]
+		#[kani::stub(smallvec::SmallVec::try_grow, crate::verif::util::no_grow)]
+		fn $name() {
+			const N: usize = $n;
+			let backing: [char; 6] = any_chars6();
+			let a = &backing[..N];
+			let pulled = Cell::new(0);
+			let base = any_base();
+			let mut p = parser_at(a, &pulled, base, 1, Options::strict());
+			let r = object::StartFragment::parse_in(&mut p, ctx_of(any_ctx()));
+			if at(a, 0) != Some('{') {
+				match &r {
+					Err(e) => {
+						assert!(is_unexpected(e, base, at(a, 0)), "C07:object-start-error-position");
+					}
+					Ok(_) => panic!("C01:object-starts-with-brace"),
+				}
+			} else {
+				let j = skip_ws(a, 1);
+				if at(a, j) == Some('}') {
+					match &r {
+						Ok(Meta(object::StartFragment::Empty, i)) => {
+							assert!(*i == 1 && p.code_map.len() == 2, "C05:object-one-entry-reserved");
+							assert!(
+								entry_is(&p, 1, base, off(a, base, j + 1), 1),
+								"C05:empty-object-entry-closed-with-span-and-volume-1"
+							);
+							assert!(p.position == off(a, base, j + 1) && p.pending.is_none(), "C01:empty-object-consumes-through-brace");
+							assert!(pulled.get() == j + 1, "C01:single-pass");
+						}
+						_ => panic!("C01:empty-object-is-brace-ws-brace"),
+					}
+				} else {
+					// a key must follow: compare with the string reference on the rest
+					let want = ref_string(&a[j.min(N)..], false, false);
+					match &r {
+						Ok(Meta(object::StartFragment::Empty, _)) => panic!("C01:empty-object-is-brace-ws-brace"),
+						Ok(Meta(object::StartFragment::NonEmpty(Meta(_key, e)), i)) => {
+							// N <= 4 cannot hold `{"":` plus anything more: only `{"":` itself
+							assert!(want.ok, "C01:object-key-is-a-string");
+							let k = skip_ws(a, j + want.consumed);
+							assert!(at(a, k) == Some(':'), "C01:key-followed-by-colon");
+							assert!(*i == 1 && *e == 2 && p.code_map.len() == 4, "C05:object-entry-key-entries-reserved-in-preorder");
+							assert!(entry_open(&p, 1, base), "C05:object-entry-stays-open-until-closing-brace");
+							assert!(entry_open(&p, 2, off(a, base, j)), "C05:entry-fragment-starts-at-its-key-and-stays-open");
+							assert!(
+								entry_is(&p, 3, off(a, base, j), off(a, base, j + want.consumed), 1),
+								"C05:key-entry-closed-with-key-span"
+							);
+							assert!(p.position == off(a, base, k + 1), "C01:colon-consumed");
+						}
+						Err(e) => {
+							match want.err {
+								RefErr::Unexpected(m) if !want.ok => {
+									assert!(
+										is_unexpected(e, off(a, base, j + m), at(a, j + m)),
+										"C07:object-key-error-position"
+									);
+								}
+								_ => {
+									if want.ok {
+										let k = skip_ws(a, j + want.consumed);
+										assert!(at(a, k) != Some(':'), "C01:key-colon-accepted");
+										assert!(is_unexpected(e, off(a, base, k), at(a, k)), "C07:missing-colon-error-position");
+									}
+								}
+							}
+						}
+					}
+				}
+			}
+			kani::cover!(N < 2 || matches!(r, Ok(Meta(object::StartFragment::Empty, _))));
+			kani::cover!(N < 4 || matches!(r, Ok(Meta(object::StartFragment::NonEmpty(_), _))));
+			kani::cover!(r.is_err());
+			core::mem::forget(r);
+			core::mem::forget(p);
+		}
+	};
+}
+
+s1_object_start!(s1_object_start_n0, 0, 5);
+s1_object_start!(s1_object_start_n1, 1, 5);
+s1_object_start!(s1_object_start_n2, 2, 5);
+s1_object_start!(s1_object_start_n3, 3, 5);
+s1_object_start!(s1_object_start_n4, 4, 6);
+
+#[cfg(kani)]
+fn ws_or_not(buf: &mut [char; 12], len: &mut usize) {
+	if kani::any() {
+		let c: char = kani::any();
+		kani::assume(ws(c));
+		buf[*len] = c;
+		*len += 1;
+	}
+}
+
+/// Shaped: `{` ws? `"` c `"` ws? x — one symbolic key character of any
+/// UTF-8 length, optional whitespace at both places, symbolic terminator.
+#[cfg(kani)]
+#[kani::proof]
+#[kani::unwind(4)]
+#[kani::stub(smallvec::SmallVec::try_grow, crate::verif::util::no_grow)]
+fn s1_object_start_shaped() {
+	let mut buf: [char; 12] = ['{'; 12];
+	let mut len = 1;
+	ws_or_not(&mut buf, &mut len);
+	let kstart = len;
+	buf[len] = '"';
+	let c: char = kani::any();
+	kani::assume(c as u32 >= 0x20 && c != '"' && c != '\\');
+	buf[len + 1] = c;
+	buf[len + 2] = '"';
+	len += 3;
+	let kend = len;
+	ws_or_not(&mut buf, &mut len);
+	let x: char = kani::any();
+	kani::assume(!ws(x));
+	buf[len] = x;
+	len += 1;
+	let a = &buf[..len];
+	let pulled = Cell::new(0);
+	let base = any_base();
+	let mut p = parser_at(a, &pulled, base, 1, any_options());
+	let r = object::StartFragment::parse_in(&mut p, Context::None);
+	match r {
+		Ok(Meta(object::StartFragment::NonEmpty(Meta(key, e)), i)) => {
+			assert!(x == ':', "C01:key-followed-by-colon");
+			let mut kb = [0u8; 4];
+			assert!(key.as_str() == c.encode_utf8(&mut kb), "C02:key-decoded");
+			assert!(i == 1 && e == 2 && p.code_map.len() == 4, "C05:object-entry-key-entries-reserved-in-preorder");
+			assert!(entry_open(&p, 1, base), "C05:object-entry-stays-open-until-closing-brace");
+			assert!(entry_open(&p, 2, off(a, base, kstart)), "C05:entry-fragment-starts-at-its-key-and-stays-open");
+			assert!(
+				entry_is(&p, 3, off(a, base, kstart), off(a, base, kend), 1),
+				"C05:key-entry-closed-with-key-span"
+			);
+			assert!(p.position == off(a, base, len) && p.pending.is_none(), "C01:colon-consumed");
+			assert!(pulled.get() == len, "C01:single-pass");
+			core::mem::forget(key);
+		}
+		Ok(_) => panic!("C01:nonempty-object-start"),
+		Err(e) => {
+			assert!(x != ':', "C01:key-colon-accepted");
+			assert!(is_unexpected(&e, off(a, base, len - 1), Some(x)), "C07:missing-colon-error-position");
+			core::mem::forget(e);
+		}
+	}
+	kani::cover!(x == ':' && utf8_len(c) == 3 && len == 7);
+	kani::cover!(x != ':');
+	core::mem::forget(p);
+}
+
+/// Shaped continue: ws? (`,` ws? `"` c `"` ws? x | `}` | other)
+#[cfg(kani)]
+#[kani::proof]
+#[kani::unwind(5)]
+#[kani::stub(smallvec::SmallVec::try_grow, crate::verif::util::no_grow)]
+fn s1_object_continue_shaped() {
+	let mut buf: [char; 12] = [' '; 12];
+	let mut len = 0;
+	ws_or_not(&mut buf, &mut len);
+	let sep: char = kani::any();
+	kani::assume(!ws(sep));
+	let sep_at = len;
+	buf[len] = sep;
+	len += 1;
+	ws_or_not(&mut buf, &mut len);
+	let kstart = len;
+	buf[len] = '"';
+	let c: char = kani::any();
+	kani::assume(c as u32 >= 0x20 && c != '"' && c != '\\');
+	buf[len + 1] = c;
+	buf[len + 2] = '"';
+	len += 3;
+	let kend = len;
+	ws_or_not(&mut buf, &mut len);
+	let x: char = kani::any();
+	kani::assume(!ws(x));
+	buf[len] = x;
+	len += 1;
+	let a = &buf[..len];
+	let pulled = Cell::new(0);
+	let base = any_base();
+	let mut p = parser_at(a, &pulled, base, 3, any_options());
+	let obj: usize = kani::any();
+	kani::assume(obj < 3);
+	let start: usize = kani::any();
+	kani::assume(start <= base);
+	{
+		let e = p.code_map.get_mut(obj).unwrap();
+		e.span = locspan::Span::new(start, start);
+		e.volume = 0;
+	}
+	let r = object::ContinueFragment::parse_in(&mut p, obj);
+	match r {
+		Ok(object::ContinueFragment::End) => {
+			assert!(sep == '}', "C01:object-continues-with-comma-or-brace");
+			assert!(p.position == off(a, base, sep_at + 1) && p.pending.is_none(), "C01:closing-brace-consumed");
+			assert!(
+				entry_is(&p, obj, start, off(a, base, sep_at + 1), 3 - obj),
+				"C05:object-entry-closed-at-brace-with-volume-of-subtree"
+			);
+			assert!(p.code_map.len() == 3, "C05:no-entry-for-punctuation");
+			assert!(pulled.get() == sep_at + 1, "C01:single-pass");
+		}
+		Ok(object::ContinueFragment::Entry(Meta(key, e))) => {
+			assert!(sep == ',' && x == ':', "C01:entry-is-comma-key-colon");
+			let mut kb = [0u8; 4];
+			assert!(key.as_str() == c.encode_utf8(&mut kb), "C02:key-decoded");
+			assert!(e == 3 && p.code_map.len() == 5, "C05:entry-and-key-entries-reserved-in-preorder");
+			assert!(entry_open(&p, obj, start), "C05:object-entry-stays-open-until-closing-brace");
+			assert!(entry_open(&p, 3, off(a, base, kstart)), "C05:entry-fragment-starts-at-its-key-and-stays-open");
+			assert!(
+				entry_is(&p, 4, off(a, base, kstart), off(a, base, kend), 1),
+				"C05:key-entry-closed-with-key-span"
+			);
+			assert!(p.position == off(a, base, len) && p.pending.is_none(), "C01:colon-consumed");
+			assert!(pulled.get() == len, "C01:single-pass");
+			core::mem::forget(key);
+		}
+		Err(e) => {
+			if sep == '}' {
+				panic!("C01:closing-brace-accepted");
+			} else if sep != ',' {
+				assert!(is_unexpected(&e, off(a, base, sep_at), Some(sep)), "C07:object-continue-error-position");
+			} else {
+				assert!(x != ':', "C01:key-colon-accepted");
+				assert!(is_unexpected(&e, off(a, base, len - 1), Some(x)), "C07:missing-colon-error-position");
+			}
+			core::mem::forget(e);
+		}
+	}
+	kani::cover!(sep == '}' && sep_at == 1);
+	kani::cover!(sep == ',' && x == ':' && len == 8 && utf8_len(c) == 4);
+	kani::cover!(sep == ',' && x != ':');
+	kani::cover!(sep == ';');
+	core::mem::forget(p);
+}
+
+/// `ContinueFragment` on fully symbolic short inputs (error paths: end of
+/// input after the comma, non-string key, ...).
+macro_rules! s1_object_continue {
+	($name:ident, $n:expr, $unwind:expr) => {
+		#[cfg(kani)]
+		#[kani::proof]
+		#[kani::unwind($unwind)]
+		#[kani::stub(smallvec::SmallVec::try_grow, crate::verif::util::no_grow)]
+		fn $name() {
+			const N: usize = $n;
+			let backing: [char; 6] = any_chars6();
+			let a = &backing[..N];
+			let pulled = Cell::new(0);
+			let base = any_base();
+			let mut p = parser_at(a, &pulled, base, 2, Options::strict());
+			{
+				let e = p.code_map.get_mut(0).unwrap();
+				e.span = locspan::Span::new(0, 0);
+				e.volume = 0;
+			}
+			let r = object::ContinueFragment::parse_in(&mut p, 0);
+			let j = skip_ws(a, 0);
+			match at(a, j) {
+				Some('}') => {
+					assert!(matches!(r, Ok(object::ContinueFragment::End)), "C01:closing-brace-accepted");
+					assert!(entry_is(&p, 0, 0, off(a, base, j + 1), 2), "C05:object-entry-closed-at-brace-with-volume-of-subtree");
+				}
+				Some(',') => {
+					let k = skip_ws(a, j + 1);
+					let want = ref_string(&a[k.min(N)..], false, false);
+					match &r {
+						Ok(object::ContinueFragment::Entry(Meta(_, e))) => {
+							assert!(want.ok, "C01:object-key-is-a-string");
+							let c = skip_ws(a, k + want.consumed);
+							assert!(at(a, c) == Some(':'), "C01:key-followed-by-colon");
+							assert!(*e == 2 && entry_open(&p, 2, off(a, base, k)), "C05:entry-fragment-starts-at-its-key-and-stays-open");
+						}
+						Ok(_) => panic!("C01:entry-is-comma-key-colon"),
+						Err(e) => match want.err {
+							RefErr::Unexpected(m) if !want.ok => {
+								assert!(is_unexpected(e, off(a, base, k + m), at(a, k + m)), "C07:object-key-error-position");
+							}
+							_ => {
+								if want.ok {
+									let c = skip_ws(a, k + want.consumed);
+									assert!(at(a, c) != Some(':'), "C01:key-colon-accepted");
+									assert!(is_unexpected(e, off(a, base, c), at(a, c)), "C07:missing-colon-error-position");
+								}
+							}
+						},
+					}
+				}
+				c => match &r {
+					Err(e) => assert!(is_unexpected(e, off(a, base, j), c), "C07:object-continue-error-position"),
+					Ok(_) => panic!("C01:object-continues-with-comma-or-brace"),
+				},
+			}
+			kani::cover!(N < 1 || at(a, j) == Some('}'));
+			kani::cover!(N < 2 || (at(a, j) == Some(',') && r.is_err()));
+			kani::cover!(j == N);
+			core::mem::forget(r);
+			core::mem::forget(p);
+		}
+	};
+}
+
+s1_object_continue!(s1_object_continue_n0, 0, 5);
+s1_object_continue!(s1_object_continue_n1, 1, 5);
+s1_object_continue!(s1_object_continue_n2, 2, 5);
+s1_object_continue!(s1_object_continue_n3, 3, 5);
+s1_object_continue!(s1_object_continue_n4, 4, 6);
+
